@@ -49,7 +49,7 @@ class _Outputter(object):
         with file:
             try:
                 return json.load(file)
-            except JSONDecodeError:
+            except (JSONDecodeError, UnicodeDecodeError):
                 self.parsing_error(path=path, exc_info=sys.exc_info())
                 raise _CannotLoadFile()
 
